@@ -1,0 +1,57 @@
+//go:build verif
+
+package litestream
+
+import (
+	"io"
+	"net/http"
+	"os"
+)
+
+// This file is only built with the "verif" tag. It exposes read-only probes
+// and existing test seams to the out-of-tree simulation harness.
+
+// VerifSyncState is a copy of the DB's internal sync-tracking state.
+type VerifSyncState struct {
+	TruncatePassiveFailed bool
+	SyncedSinceCheckpoint bool
+	SyncedToWALEnd        bool
+	LastSyncedWALOffset   int64
+}
+
+// VerifSyncState returns a copy of the DB's sync-tracking state.
+func (db *DB) VerifSyncState() VerifSyncState {
+	db.mu.RLock()
+	defer db.mu.RUnlock()
+	return VerifSyncState{
+		TruncatePassiveFailed: db.syncState.truncatePassiveFailed,
+		SyncedSinceCheckpoint: db.syncState.syncedSinceCheckpoint,
+		SyncedToWALEnd:        db.syncState.syncedToWALEnd,
+		LastSyncedWALOffset:   db.syncState.lastSyncedWALOffset,
+	}
+}
+
+// VerifStagingFile mirrors the unexported ltxStagingFile interface.
+type VerifStagingFile interface {
+	io.Writer
+	Sync() error
+	Close() error
+}
+
+// VerifSetOpenLTXFile overrides the existing openLTXFile staging seam.
+// Passing nil restores the default.
+func (db *DB) VerifSetOpenLTXFile(fn func(name string, flag int, perm os.FileMode) (VerifStagingFile, error)) {
+	if fn == nil {
+		db.openLTXFile = defaultOpenLTXFile
+		return
+	}
+	db.openLTXFile = func(name string, flag int, perm os.FileMode) (ltxStagingFile, error) {
+		return fn(name, flag, perm)
+	}
+}
+
+// VerifHandler returns the server's HTTP handler so that control requests can
+// be driven without a socket.
+func (s *Server) VerifHandler() http.Handler {
+	return s.httpServer.Handler
+}
